@@ -1018,7 +1018,7 @@ func (g *Gen) refsStep() {
 			}
 		}
 		if g.r.Intn(4) == 0 {
-			g.emit(line + " cache=" + g.pick([]string{"sha256:?9", "bad:1", sj}) + " page=" + g.pick([]string{"1", "2", "-1", "x", "0"}))
+			g.emit(line + " cache=" + g.pick([]string{"sha256:?9", "bad:1", sj}) + " page=" + g.pick([]string{"1", "2", "-1", "x", "0", "9223372036854775807", "9223372036854775808", "-9223372036854775808"}))
 		}
 		// a continuation that has gone stale: the list changes (a listed artifact is deleted by digest) and the client goes on
 		// with the cache digest it was given, on a path that misses the page cache (a filter not used with it before)
